@@ -24,27 +24,42 @@ POOLS = {
     'xs:QName': [('p:a', 1), ('q:a', 1), ('p:b', 2), ('r:a', 3)],    # p and q are bound to the same namespace
 }
 TYPES = list(POOLS)
+# with a target namespace the documents declare it as default namespace: unprefixed QNames are in urn:n1 like p: and q:
+QNAME_TNS = POOLS['xs:QName'] + [('a', 1), ('b', 2)]
+
+
+def pool(tmpl, i):
+    ty = tmpl['types'][i]
+    return QNAME_TNS if ty == 'xs:QName' and tmpl.get('tns') else POOLS[ty]
 
 
 def schema_text(tmpl):
     nf, types, onattr = tmpl['nf'], tmpl['types'], tmpl['onattr']
+    tns = tmpl.get('tns')
+    px = 't:' if tns else ''
     fields_decl_attr = ''.join('<xs:attribute name="a%d" type="%s"/>' % (i, types[i]) for i in range(nf) if onattr[i])
     fields_decl_el = ''.join('<xs:element name="c%d" type="%s" minOccurs="0"/>' % (i, types[i])
                              for i in range(nf) if not onattr[i])
+    if tmpl.get('idel'):
+        fields_decl_el += ('<xs:element name="ide" type="xs:ID" minOccurs="0"/>'
+                           '<xs:element name="refe" type="xs:IDREF" minOccurs="0"/>')
     row = ('<xs:complexType><xs:sequence>%s</xs:sequence>%s<xs:attribute name="id" type="xs:ID"/>'
            '<xs:attribute name="ref" type="xs:IDREF"/></xs:complexType>' % (fields_decl_el, fields_decl_attr))
-    fields = ''.join('<xs:field xpath="%s"/>' % ('@a%d' % i if onattr[i] else 'c%d' % i) for i in range(nf))
-    return ('<xs:schema xmlns:xs="http://www.w3.org/2001/XMLSchema">'
+    fields = ''.join('<xs:field xpath="%s"/>' % ('@a%d' % i if onattr[i] else '%sc%d' % (px, i)) for i in range(nf))
+    head = ('<xs:schema xmlns:xs="http://www.w3.org/2001/XMLSchema" targetNamespace="urn:n1" xmlns:t="urn:n1" '
+            'elementFormDefault="qualified">' if tns else '<xs:schema xmlns:xs="http://www.w3.org/2001/XMLSchema">')
+    return (head +
             '<xs:element name="root"><xs:complexType><xs:sequence>'
             '<xs:element name="grp" minOccurs="0" maxOccurs="unbounded"><xs:complexType><xs:sequence>'
             '<xs:element name="k" minOccurs="0" maxOccurs="unbounded">%s</xs:element>'
             '<xs:element name="u" minOccurs="0" maxOccurs="unbounded">%s</xs:element>'
             '<xs:element name="f" minOccurs="0" maxOccurs="unbounded">%s</xs:element>'
             '</xs:sequence></xs:complexType>'
-            '<xs:key name="K"><xs:selector xpath="k"/>%s</xs:key>'
-            '<xs:unique name="U"><xs:selector xpath="u"/>%s</xs:unique>'
-            '<xs:keyref name="F" refer="K"><xs:selector xpath="f"/>%s</xs:keyref>'
-            '</xs:element></xs:sequence></xs:complexType></xs:element></xs:schema>' % (row, row, row, fields, fields, fields))
+            '<xs:key name="K"><xs:selector xpath="%sk"/>%s</xs:key>'
+            '<xs:unique name="U"><xs:selector xpath="%su"/>%s</xs:unique>'
+            '<xs:keyref name="F" refer="%sK"><xs:selector xpath="%sf"/>%s</xs:keyref>'
+            '</xs:element></xs:sequence></xs:complexType></xs:element></xs:schema>'
+            % (row, row, row, px, fields, px, fields, px, px, fields))
 
 
 def render_row(tag, row, tmpl):
@@ -52,7 +67,7 @@ def render_row(tag, row, tmpl):
     for i, cell in enumerate(row['cells']):
         if cell is None:
             continue
-        lex = POOLS[tmpl['types'][i]][cell][0]
+        lex = pool(tmpl, i)[cell][0]
         if tmpl['onattr'][i]:
             attrs += ' a%d="%s"' % (i, lex)
         else:
@@ -61,12 +76,16 @@ def render_row(tag, row, tmpl):
         attrs += ' id="%s"' % row['id']
     if row.get('ref'):
         attrs += ' ref="%s"' % row['ref']
+    if row.get('ide'):
+        kids += '<ide>%s</ide>' % row['ide']
+    if row.get('refe'):
+        kids += '<refe>%s</refe>' % row['refe']
     return '<%s%s>%s</%s>' % (tag, attrs, kids, tag)
 
 
 def render_doc(case):
     t = case['tmpl']
-    parts = ['<root xmlns:p="urn:n1" xmlns:q="urn:n1" xmlns:r="urn:n2">']
+    parts = ['<root %sxmlns:p="urn:n1" xmlns:q="urn:n1" xmlns:r="urn:n2">' % ('xmlns="urn:n1" ' if t.get('tns') else '')]
     for g in case['groups']:
         parts.append('<grp>')
         for tag in ('k', 'u', 'f'):
@@ -114,7 +133,7 @@ def subject(case):
 
 
 def tuple_of(row, tmpl):
-    return [None if c is None else POOLS[tmpl['types'][i]][c][1] for i, c in enumerate(row['cells'])]
+    return [None if c is None else pool(tmpl, i)[c][1] for i, c in enumerate(row['cells'])]
 
 
 def coq_tuple(t):
@@ -148,6 +167,12 @@ def doc_ids(case):
                     ids.append(row['id'])
                 if row.get('ref'):
                     refs.append(row['ref'])
+                # XSD 1.1: an xs:ID child identifies its parent, so the same value on the attribute and on the child of
+                # one row binds the value to one element only
+                if row.get('ide') and not (case['version'] == '1.1' and row.get('id') == row['ide']):
+                    ids.append(row['ide'])
+                if row.get('refe'):
+                    refs.append(row['refe'])
     return ids, refs
 
 
@@ -221,7 +246,7 @@ def rand_row(rng, tmpl, p_missing=0.2, ids=None):
         if rng.random() < p_missing:
             cells.append(None)
         else:
-            cells.append(rng.randrange(len(POOLS[tmpl['types'][i]])))
+            cells.append(rng.randrange(len(pool(tmpl, i))))
     row = {'cells': cells}
     if ids is not None:
         r = rng.random()
@@ -229,12 +254,20 @@ def rand_row(rng, tmpl, p_missing=0.2, ids=None):
             row['id'] = rng.choice(['i1', 'i2', 'i3'])
         elif r < 0.25:
             row['ref'] = rng.choice(['i1', 'i2', 'i4'])
+        if tmpl.get('idel'):
+            r = rng.random()
+            if r < 0.2:
+                row['ide'] = rng.choice(['i1', 'i2', 'i3', 'i5'])
+            elif r < 0.4:
+                row['refe'] = rng.choice(['i1', 'i2', 'i5'])
     return row
 
 
 def rand_tmpl(rng):
     nf = rng.choice([1, 1, 2, 2, 3])
-    return {'nf': nf, 'types': [rng.choice(TYPES) for _ in range(nf)], 'onattr': [rng.random() < 0.7 for _ in range(nf)]}
+    types = [rng.choice(TYPES) for _ in range(nf)]
+    return {'nf': nf, 'types': types, 'onattr': [rng.random() < 0.7 for _ in range(nf)],
+            'tns': rng.random() < (0.7 if 'xs:QName' in types else 0.2), 'idel': rng.random() < 0.35}
 
 
 def gen(ctx):
@@ -269,16 +302,17 @@ def gen(ctx):
             for r in g['f']:
                 if g['k'] and rng.random() < 0.6:
                     src = rng.choice(g['k'])['cells']
-                    r['cells'] = [c if c is None else _variant(rng, tm['types'][j], c) for j, c in enumerate(src)]
+                    r['cells'] = [c if c is None else _variant(rng, tm, j, c) for j, c in enumerate(src)]
             groups.append(g)
         cases.append({'tmpl': tm, 'version': '1.1' if i % 2 else '1.0', 'groups': groups})
     return cases
 
 
-def _variant(rng, typ, idx):
+def _variant(rng, tmpl, j, idx):
     """another lexical form of the same value"""
-    val = POOLS[typ][idx][1]
-    same = [i for i, (_l, v) in enumerate(POOLS[typ]) if v == val]
+    pl = pool(tmpl, j)
+    val = pl[idx][1]
+    same = [i for i, (_l, v) in enumerate(pl) if v == val]
     return rng.choice(same)
 
 
@@ -286,7 +320,8 @@ def run(ctx):
     cases = gen(ctx)
     ctx.rule = ('tables of field tuples for key / unique / keyref in 1-3 scope instances: exhaustive 2-3 row tables over '
                 '{absent, two lexical forms of one value, another value} x 2 fields (%s), seeded random templates '
-                '(1-3 fields, attribute/child, integer/decimal/boolean/string/QName) with ID/IDREF attributes; '
+                '(1-3 fields, attribute/child, integer/decimal/boolean/string/QName, with and without a target namespace declared as default namespace) '
+                'with ID/IDREF attributes and element content; '
                 'non-trivial = at least 3 rows; distinct by document+template+version'
                 % ('sampled' if ctx.quick() else 'complete'))
     evaluate(ctx, cases)
